@@ -55,9 +55,10 @@ Print Assumptions C06_permanent.
    not MetricsUnavailable, not EarlyStopped, and its stored observation has an objective value. *)
 Theorem C06_exclusive : forall c acts t,
   valid_cfg c -> no_teardown acts -> In t (w_trials (run c acts)) ->
-  has_cond (t_conds t) TSucceeded = true ->
-  has_cond (t_conds t) TFailed = false /\ has_cond (t_conds t) TMetricsUnavailable = false /\
-  has_cond (t_conds t) TEarlyStopped = false /\ obs_available (t_obs t) = true.
+  (has_cond (t_conds t) TSucceeded = true ->
+   has_cond (t_conds t) TFailed = false /\ has_cond (t_conds t) TMetricsUnavailable = false /\
+   has_cond (t_conds t) TEarlyStopped = false /\ obs_available (t_obs t) = true)
+  /\ (has_cond (t_conds t) TMetricsUnavailable = true -> has_cond (t_conds t) TRunning = false).
 Proof. exact trials_good. Qed.
 Print Assumptions C06_exclusive.
 
